@@ -622,6 +622,13 @@ fn oracle_c07(rep: &mut Report, c: &Case, spec: &openapiv3::OpenAPI, h: &hir::Hi
         let arr_inline = s["type"] == "array" && s["items"].get("$ref").is_none() && s["items"].is_object();
         rep.oracle_fail("reachableRemoved", if arr_inline { vec!["arrayComponentInlineItemsReferenced".to_string()] } else { vec![] }, &case, &format!("component {n} is referenced from operations (directly or through members; via {}) but was pruned", via.get(n).cloned().unwrap_or_default()));
     }
+    // the recorded clash: an operation whose first success response is an inline object gets the schema name `<Operation>Response`
+    let invented_response_names: BTreeSet<String> = spec.operations().filter_map(|(path, method, op, _)| {
+        let ho = h.operations.iter().find(|o| o.path == path && o.method == method)?;
+        let inline = ["200", "201", "202", "204", "302"].iter().find_map(|c| doc["paths"][path][method]["responses"].get(*c)).map(|r| { let sc = &r["content"]["application/json"]["schema"]; sc.is_object() && sc.get("$ref").is_none() }).unwrap_or(false);
+        let _ = op;
+        if inline { Some(format!("{}Response", ho.name)) } else { None }
+    }).collect();
     // 3a. a retained object component still is that component: a struct with exactly its declared properties
     for (n, s) in &comps {
         if s["type"] != json!("object") || s.get("allOf").is_some() { continue; }
@@ -631,7 +638,7 @@ fn oracle_c07(rep: &mut Report, c: &Case, spec: &openapiv3::OpenAPI, h: &hir::Hi
         let want: BTreeSet<&String> = props.keys().collect();
         let ok = match r { hir::Record::Struct(st) => st.fields.keys().collect::<BTreeSet<_>>() == want, _ => false };
         if !ok {
-            let clash = n.ends_with("Response");
+            let clash = invented_response_names.contains(n);
             rep.oracle_fail("componentReplaced", if clash { vec!["inlineResponseNameClash".to_string()] } else { vec![] }, &case, &format!("component {n} declares properties {:?} but the schema of that name is {}", want, specio::record(r)));
         }
     }
@@ -645,7 +652,7 @@ fn oracle_c07(rep: &mut Report, c: &Case, spec: &openapiv3::OpenAPI, h: &hir::Hi
                 match t1.schemas.get(n) {
                     Some(r1) if specio::record(r1) == specio::record(r0) => {}
                     other => {
-                        let clash = n.ends_with("Response");
+                        let clash = invented_response_names.contains(n);
                         rep.oracle_fail("componentReplaced", if clash { vec!["inlineResponseNameClash".to_string()] } else { vec![] }, &case, &format!("component {n}: extracted alone {} but with operations {}", specio::record(r0), other.map(specio::record).unwrap_or("absent".into())));
                     }
                 }
